@@ -502,12 +502,54 @@ def _thread_result_returns(j, cj, off_b, off_l, call_t):
         return
     ret_local = off_l   # callee _0
 
-    def variant_of(stmts):
-        v = None
-        for st in stmts:
+    # which variant does the callee's return place hold at the end of each of its blocks?  (a tiny forward dataflow:
+    # `_0 = Ok(..)` / `_0 = Err(..)` aggregates and `_0 = FromResidual::from_residual(..)` calls - the `?` error path -
+    # set it, anything else that writes _0 clears it, joins keep it only if all predecessors agree)
+    n_c = len(cj)
+    preds = {i: [] for i in range(n_c)}
+
+    def succ_of(tm):
+        out = []
+        for k in ('target', 'otherwise'):
+            if isinstance(tm.get(k), int):
+                out.append(tm[k])
+        for x in tm.get('targets', []) or []:
+            out.append(x['bb'])
+        return out
+    for i, cb_ in enumerate(cj):
+        for sx in succ_of(cb_['term']):
+            if off_b <= sx < off_b + n_c:
+                preds[sx - off_b].append(i)
+    UNK = '?'
+    var_out = {i: None for i in range(n_c)}      # None = not computed yet
+
+    def transfer(i, vin):
+        v = vin
+        for st in cj[i]['stmts']:
             if 'assign' in st and st['assign'].get('l') == ret_local and not st['assign'].get('p'):
                 rv = st['rv']
-                v = rv.get('variant') if rv.get('k') == 'agg' and rv.get('adt') == 'core::result::Result' else None
+                v = rv.get('variant') if rv.get('k') == 'agg' and rv.get('adt') == 'core::result::Result' and rv.get('variant') in ('Ok', 'Err') else UNK
+        tm = cj[i]['term']
+        if tm.get('k') == 'call' and (tm.get('dest') or {}).get('l') == ret_local and not (tm.get('dest') or {}).get('p'):
+            v = 'Err' if (tm.get('callee') or '').endswith('FromResidual::from_residual') else UNK
+        return v
+    changed_ = True
+    rounds = 0
+    while changed_ and rounds < 50:
+        changed_ = False
+        rounds += 1
+        for i in range(n_c):
+            ins = [var_out[p_] for p_ in preds[i] if var_out[p_] is not None]
+            vin = UNK if not preds[i] else (ins[0] if ins and all(x == ins[0] for x in ins) and len(ins) == len([p_ for p_ in preds[i] if var_out[p_] is not None]) else (UNK if ins else None))
+            if vin is None and preds[i]:
+                vin = UNK if rounds > 1 else None
+            vo = transfer(i, vin if vin is not None else UNK)
+            if vo != var_out[i]:
+                var_out[i] = vo
+                changed_ = True
+
+    def variant_at_end(i):
+        v = var_out.get(i)
         return v if v in ('Ok', 'Err') else None
 
     def thread(block_obj, variant):
@@ -544,31 +586,38 @@ def _thread_result_returns(j, cj, off_b, off_l, call_t):
             block_obj['term']['target'] = len(blocks)
             blocks.append(t2)
 
-    for ci, cblk in enumerate(cj):
+    for ci, cblk in enumerate(list(cj)):
         term = cblk['term']
         if term.get('k') != 'goto' or term.get('target') != T or not cblk['stmts']:
             continue
         last = cblk['stmts'][-1]
         if not ('assign' in last and last['assign'].get('l') == dl and last['rv'].get('k') == 'use'):
             continue
-        v = variant_of(cblk['stmts'][:-1])
+        v = variant_at_end(ci)
         if v:
             thread(cblk, v)
             continue
-        # the usual shape: `P: _0 = Err(..); goto R` for several P, `R: return`: give each such P its own copy of R
-        for pblk in cj:
-            pt = pblk['term']
-            if pblk is cblk or pt.get('k') != 'goto' or pt.get('target') != off_b + ci:
+        # the usual shape: several blocks set _0 to Ok(..) / Err(..) and jump to the one `return` block: give each
+        # predecessor whose variant is known its own copy of that block
+        for pi in preds[ci]:
+            pv = variant_at_end(pi)
+            if not pv:
                 continue
-            pv = variant_of(pblk['stmts'])
-            if pv:
-                r2 = json.loads(json.dumps(cblk))
-                pt['target'] = len(blocks)
-                blocks.append(r2)
-                thread(r2, pv)
+            pblk = cj[pi]
+            r2 = json.loads(json.dumps(cblk))
+            idx_new = len(blocks)
+            blocks.append(r2)
+            pt = pblk['term']
+            for k in ('target', 'otherwise'):
+                if pt.get(k) == off_b + ci:
+                    pt[k] = idx_new
+            for x in pt.get('targets', []) or []:
+                if x['bb'] == off_b + ci:
+                    x['bb'] = idx_new
+            thread(r2, pv)
 
 
-def inline_helpers(body, is_helper, depth=2, max_blocks=400):
+def inline_helpers(body, is_helper, depth=2, max_blocks=4000):
     """A copy of `body` in which every call to a crate-local function accepted by `is_helper(callee_body)` is replaced
     by the callee's own blocks (arguments assigned to the callee's parameters, its return value assigned to the call's
     destination), recursively up to `depth`.  Lets a rule see through `extract function` refactors.  Calls to
@@ -888,7 +937,7 @@ class Facts:
         rule runs, so `extract function` does not move code out of a rule's sight.  On the reviewed tree there is no such
         function and nothing changes."""
         tab = _fn_table().get(self.crate)
-        if not tab:
+        if tab is None:
             return []
         new = set()
         for path, fn in self.fns.items():
